@@ -25,6 +25,10 @@ func (releaseComp) Corpus() [][]string {
 	return [][]string{
 		// S3: confirmed version past its delete time, file rewritten: the scan clean-up must not delete it
 		{"tag a 1 0", "cache a.f1 5 -10 m-v1-5 1", "file a.f1 7 -2 v2", "scan"},
+		// the same when the store's scan does not return the rewritten file at all (too young:
+		// mtime not before the scan start; ignored name): the clean-up must still look at the file itself
+		{"tag a 1 0", "cache a.f1 5 -10 m-v1-5 1", "file a.f1 7 5 v2", "scan"},
+		{"tag ign 1 0", "cache ign.f1 5 -10 m-v1-5 1", "file ign.f1 7 -2 v2", "scan"},
 		// S18: a confirmed file changes, delete-delay not yet over: the re-added entry must not stay done
 		{"tag a 1 10", "cache a.f1 5 -3 m-v1-5 1", "file a.f1 7 -1 v2", "scan", "restart 20", "scan"},
 		// S18 without deletion: the changed file is queued; after a crash it must be recovered, not taken as done
@@ -249,6 +253,9 @@ func relGenCase(r *Rand, mode string) []string {
 				if nt > 0 {
 					nt = f.time - 1
 				}
+			}
+			if r.Chance(0.2) {
+				nt = r.Range(1, 5) // rewritten "just now": not before the scan start, the store's scan skips it
 			}
 			add("file %s %d %d %s", name, ns, nt, r.Pick(contents))
 		case 5: // cached, file vanished
